@@ -341,12 +341,31 @@ def run_history(ctx, kind, name, hist):
     twin = Side(kind, name, twin=True)
     model = Model(kind, name)
     trace = []
+    #: control instance that never gets an instance trait: while the acting
+    #: instance has no instance List trait, its "<name>_items" name follows
+    #: the class rule, i.e. behaves as on the control
+    ctl = real.Base()
     for i, ev in enumerate(hist):
         if not enabled(model, ev):
             return None, None
         ctx.tr()
         o1 = real.do(ev)
         o2 = twin.do(ev)
+        if ev[0] in ("get_items", "set_items") and \
+                model.inst[ev[1]] != "List":
+            keep, real.b = real.b, ctl
+            try:
+                o3 = real.do(ev)
+            finally:
+                real.b = keep
+            if o3 != o1:
+                ctx.violation(
+                    "C13:items-companion:%s:%s:%s" % (kind, name, ev[0]),
+                    "%r on %r_items gives %r although the instance has no "
+                    "List instance trait (any more); an instance that never "
+                    "had one gives %r" % (ev, name, o1, o3), kind=kind,
+                    name=name, history=hist, real=repr(o1), twin=repr(o3))
+                return False, None
         trace.append((ev, o1))
         last = i == len(hist) - 1
 
